@@ -3,6 +3,8 @@ use std::collections::HashSet;
 use ckb_types::{core::BlockNumber, U256};
 use log::{trace, warn};
 use numext_fixed_uint::{prelude::UintConvert as _, U512};
+#[cfg(feature = "verif")]
+use crate::verif_hooks::rand_shim as rand;
 use rand::{thread_rng, Rng as _};
 
 const C_FRACTION: f64 = 0.5;
